@@ -363,6 +363,10 @@ class TU:
                 out.extend(f for f in fs if (f.has_body or not body))
         return out
 
+    @property
+    def is_corpus(self):
+        return self.name.startswith(("core", "match", "coro", "print"))
+
     def need(self, qe, floor=1):
         r = self.find(qe)
         if len(r) < floor and not self.name.startswith(("core", "match", "coro", "print")):
